@@ -1,7 +1,7 @@
 (** Facts about model E (AsyncModel.v): the invariant over all reachable states and what it
     gives when the flusher is done. *)
-From Coq Require Import List NArith Bool Arith Lia Permutation.
-From Playback Require Import Async.AsyncModel.
+From Coq Require Import List NArith ZArith Bool Arith Lia Permutation.
+From Playback Require Import Values.PyVal Async.AsyncModel.
 Import ListNotations.
 Open Scope list_scope.
 
@@ -388,7 +388,7 @@ Qed.
     runs the operation - a caller that keeps using a dict after passing it to add_metadata gets a stored recording
     that differs from synchronous recording of the same requests *)
 Definition alias_work : list (list op) :=
-  [[Op 0 0 (AddMetaMut [(0%N, 1%N)] 1%N 2%N) false; Op 1 0 Save false]].
+  [[Op 0 0 (AddMetaMut [(0%N, VInt 1)] 1%N (VInt 2)) false; Op 1 0 Save false]].
 Definition alias_sched : list choice :=
   [CProduce 0; CProduce 0; CClose; CCheck true; CLock; CSwap; CExec; CExec; CDone].
 
